@@ -122,22 +122,35 @@ func main() {
 		"One quarter of the cases use several live handles of one account (2-3 handles loaded before any is saved, different and sometimes equal keys, saved in random order: union of the writes, last saved handle wins); one round in six holds its handles across a Commit. " +
 		"caller buffer patterns: exact, spare capacity with canaries, key and value adjacent in one buffer (both orders), cap-limited sub-slices, one arena reused for all writes; buffers are scribbled over after the call with probability 1/2. " +
 		"Cases 0..k-1 are the size-limit cases (value length MaxLeafSize+1 rejected; thorough: MaxLeafSize-1 and MaxLeafSize stored and read back). " +
-		"Non-trivial: at least one hostile pattern was used and read back at >= 3 read points; shape = (patterns used, read points reached, value classes).")
+		"Non-trivial: at least one hostile pattern was used and read back at >= 3 read points; shape = (patterns used, read points reached, value classes). " +
+		"Put-fault cases: 2-5 accounts, 3-7 rounds of {2..all accounts get 1-4 writes (overwrite/delete/new key) and are saved; Commit during which the n-th storage Put (n 1-6) fails, injected through the database decorator handed to the trie storage manager}: " +
+		"a Commit that reports the error is followed by RevertToSnapshot(0) and every key must read its last committed value; a Commit that reports success vouches for every saved value (read through the same AccountsDB, after RecreateTrie and through a second AccountsDB over the same DB). " +
+		"Kept-reader cases: 1-2 accounts with a data trie, up to 4 kept handles per account that read every key when taken; writes (overwrite/delete/new key) go through a fresh handle or one of the kept ones and are saved, then every kept handle reads every key again; a Commit gives the kept handles up.")
 	r.Assume("the harness's own copies of the written bytes are the reference",
 		"only the value returned by RetrieveValue is compared (an error next to an empty value is counted, not failed)",
 		"returned slices are never written to by the harness; the address buffers handed to LoadAccount are never mutated",
 		"the clean twin (same logical writes through fresh exact-size copies, one fresh handle per SaveAccount) defines which data-trie / state roots are expected",
+		"put-fault cases: the decorated database fails exactly one Put (nothing is written for it) and is otherwise transparent; after a Commit error the harness calls RevertToSnapshot(0) before anything else, as the block processor does",
+		"kept-reader cases: handles are loaded after the account got its data trie and since the last Commit, so all of them share the data trie cached under the address; a handle with pending writes reads those, for every other key the last saved value; a kept handle is only saved with at least one pending write; the last live key of an account is never deleted",
 		"multi-handle rounds only use accounts that already have a data trie root, every handle writes at least one key, all handles are loaded before the first of them is saved, and the account is not loaded again between a Commit and the save of a handle held across it; through a saved handle only the keys it wrote itself are read")
 	r.MinShapes(r.N(40, 200))
 
 	nBig := r.N(1, 3)
 	nCases := r.N(1200, 24000)
-	r.Parallel(nBig+nCases, func(c *vk.Case) {
-		if c.Idx < nBig {
+	// further case kinds (faults.go), appended so that the base cases keep their generator
+	nFault := r.N(500, 10000)
+	nReader := r.N(500, 10000)
+	r.Parallel(nBig+nCases+nFault+nReader, func(c *vk.Case) {
+		switch {
+		case c.Idx < nBig:
 			bigCase(r, c)
-			return
+		case c.Idx < nBig+nCases:
+			normalCase(r, c)
+		case c.Idx < nBig+nCases+nFault:
+			faultCase(r, c)
+		default:
+			readerCase(r, c)
 		}
-		normalCase(r, c)
 	})
 	r.Finish()
 }
